@@ -29,6 +29,7 @@ use std::time::{Duration, Instant};
 pub enum Kind {
     JsonStore,
     JsonStoreInclude,
+    JsonStoreSubstores,
     JsonDataset,
     JsonAnnotations,
     JsonAnnotation,
@@ -45,6 +46,7 @@ impl Kind {
         match self {
             Kind::JsonStore => "json_store",
             Kind::JsonStoreInclude => "json_store_include",
+            Kind::JsonStoreSubstores => "json_store_substores",
             Kind::JsonDataset => "json_dataset",
             Kind::JsonAnnotations => "json_annotations",
             Kind::JsonAnnotation => "json_annotation",
@@ -110,6 +112,9 @@ fn base_profile(rng: &mut Rng, g: &mut GenCfg, w: &mut WorldCfg) {
     for i in 1..10 {
         g.wsel[i] = g.wsel[i].max(4);
     }
+    for i in 7..10 {
+        g.wsel[i] = g.wsel[i].max(10);
+    }
     w.ids_every = 0;
 }
 
@@ -137,6 +142,21 @@ fn base_serialisation(seed: u64, base: u64, kind: Kind) -> Option<(BTreeMap<Stri
             let snap = world.fs.snapshot();
             let main = snap.keys().find(|k| k.ends_with("store.store.stam.json"))?.clone();
             Some((snap, main, None))
+        }
+        Kind::JsonStoreSubstores => {
+            // one level of sub-stores: main includes sub1 and sub2, sub2 includes sub1 again (shared)
+            let cfg = Config::new();
+            let s = catch(|| world.store.to_json_string(&cfg)).ok()?.ok()?;
+            files.insert("/in/sub1.store.stam.json".to_string(), s.into_bytes());
+            files.insert(
+                "/in/sub2.store.stam.json".to_string(),
+                br#"{"@type": "AnnotationStore", "@id": "sub2", "@include": "/in/sub1.store.stam.json", "resources": [], "annotationsets": [], "annotations": []}"#.to_vec(),
+            );
+            files.insert(
+                "/in/main.store.stam.json".to_string(),
+                br#"{"@type": "AnnotationStore", "@id": "main", "@include": ["/in/sub1.store.stam.json", "/in/sub2.store.stam.json"], "resources": [], "annotationsets": [], "annotations": []}"#.to_vec(),
+            );
+            Some((files, "/in/main.store.stam.json".to_string(), None))
         }
         Kind::JsonDataset => {
             let ds = world.store.datasets().next()?;
@@ -319,6 +339,151 @@ fn mutate_text_tokens(rng: &mut Rng, text: &str) -> (String, String) {
     (out, format!("token@{}:{:?}->{:?}", s, &text[s..e], repl))
 }
 
+/// a random subtree of the document (clone)
+fn pick_subtree(rng: &mut Rng, v: &serde_json::Value, depth: usize) -> serde_json::Value {
+    use serde_json::Value;
+    let stop = rng.chance(1, 4) || depth > 8;
+    match v {
+        Value::Object(map) if !map.is_empty() && !stop => {
+            let keys: Vec<&String> = map.keys().collect();
+            let k = (*rng.pick(&keys)).clone();
+            pick_subtree(rng, map.get(&k).unwrap(), depth + 1)
+        }
+        Value::Array(items) if !items.is_empty() && !stop => {
+            let i = rng.below(items.len());
+            pick_subtree(rng, &items[i], depth + 1)
+        }
+        other => other.clone(),
+    }
+}
+
+/// structure-aware fault on a parsed document; besides local edits it can graft a copy of another
+/// subtree of the same document (nested selectors, crossed references) and inject an @include
+fn mutate_json_document(rng: &mut Rng, v: &mut serde_json::Value, include_targets: &[String]) -> String {
+    use serde_json::Value;
+    match rng.below(10) {
+        0 | 1 => {
+            let donor = pick_subtree(rng, v, 0);
+            let d = graft(rng, v, donor, 0);
+            format!("graft_subtree:{}", d)
+        }
+        3 => {
+            // nest a complex selector inside a complex selector (must be refused, never accepted or panicking)
+            let mut complex: Vec<serde_json::Value> = Vec::new();
+            collect_complex_selectors(v, &mut complex);
+            if complex.is_empty() {
+                return mutate_json_value(rng, v, 0);
+            }
+            let guest = rng.pick(&complex).clone();
+            let mut guest2 = rng.pick(&complex).clone();
+            if let Some(t) = guest2.get_mut("@type") {
+                *t = Value::String(rng.pick(&["MultiSelector", "CompositeSelector", "DirectionalSelector"]).to_string());
+            }
+            let twice = rng.chance(1, 2);
+            let n = rng.below(complex.len());
+            let mut counter = 0usize;
+            nest_into(v, n, &mut counter, &guest, if twice { Some(&guest2) } else { None });
+            "nest_complex_selector".to_string()
+        }
+        2 if !include_targets.is_empty() => {
+            // inject an @include into the top-level object (or into a random nested object)
+            let target = rng.pick(include_targets).clone();
+            let val = if rng.chance(1, 2) { Value::String(target.clone()) } else { Value::Array(vec![Value::String(target.clone())]) };
+            if let Value::Object(map) = v {
+                map.insert("@include".to_string(), val);
+            }
+            format!("inject_include:{}", target)
+        }
+        _ => mutate_json_value(rng, v, 0),
+    }
+}
+
+fn is_complex_selector(v: &serde_json::Value) -> bool {
+    matches!(v.get("@type").and_then(|t| t.as_str()), Some("MultiSelector") | Some("CompositeSelector") | Some("DirectionalSelector")) && v.get("selectors").map(|s| s.is_array()).unwrap_or(false)
+}
+
+fn collect_complex_selectors(v: &serde_json::Value, out: &mut Vec<serde_json::Value>) {
+    use serde_json::Value;
+    if is_complex_selector(v) {
+        out.push(v.clone());
+    }
+    match v {
+        Value::Object(map) => {
+            for (_, x) in map.iter() {
+                collect_complex_selectors(x, out);
+            }
+        }
+        Value::Array(items) => {
+            for x in items.iter() {
+                collect_complex_selectors(x, out);
+            }
+        }
+        _ => {}
+    }
+}
+
+/// pushes the guest selector(s) into the selectors list of the n-th complex selector of the document
+fn nest_into(v: &mut serde_json::Value, n: usize, counter: &mut usize, guest: &serde_json::Value, guest2: Option<&serde_json::Value>) -> bool {
+    use serde_json::Value;
+    if is_complex_selector(v) {
+        if *counter == n {
+            if let Some(Value::Array(items)) = v.get_mut("selectors") {
+                items.push(guest.clone());
+                if let Some(g2) = guest2 {
+                    items.push(g2.clone());
+                }
+            }
+            return true;
+        }
+        *counter += 1;
+    }
+    match v {
+        Value::Object(map) => {
+            for (_, x) in map.iter_mut() {
+                if nest_into(x, n, counter, guest, guest2) {
+                    return true;
+                }
+            }
+        }
+        Value::Array(items) => {
+            for x in items.iter_mut() {
+                if nest_into(x, n, counter, guest, guest2) {
+                    return true;
+                }
+            }
+        }
+        _ => {}
+    }
+    false
+}
+
+fn graft(rng: &mut Rng, v: &mut serde_json::Value, donor: serde_json::Value, depth: usize) -> String {
+    use serde_json::Value;
+    let stop = rng.chance(1, 4) || depth > 8;
+    match v {
+        Value::Object(map) if !map.is_empty() && !stop => {
+            let keys: Vec<String> = map.keys().cloned().collect();
+            let k = rng.pick(&keys).clone();
+            let d = graft(rng, map.get_mut(&k).unwrap(), donor, depth + 1);
+            format!("{}/{}", k, d)
+        }
+        Value::Array(items) if !items.is_empty() && !stop => {
+            let i = rng.below(items.len());
+            if rng.chance(1, 3) {
+                items.push(donor);
+                "[push]".to_string()
+            } else {
+                let d = graft(rng, &mut items[i], donor, depth + 1);
+                format!("[]/{}", d)
+            }
+        }
+        other => {
+            *other = donor;
+            "=".to_string()
+        }
+    }
+}
+
 fn mutate_json_value(rng: &mut Rng, v: &mut serde_json::Value, depth: usize) -> String {
     use serde_json::Value;
     // descend randomly
@@ -496,6 +661,7 @@ pub fn gen_case(seed: u64, index: u64) -> Option<Case> {
         Kind::JsonStore,
         Kind::JsonStore,
         Kind::JsonStoreInclude,
+        Kind::JsonStoreSubstores,
         Kind::JsonDataset,
         Kind::JsonAnnotations,
         Kind::JsonAnnotation,
@@ -527,7 +693,7 @@ pub fn gen_case(seed: u64, index: u64) -> Option<Case> {
             fault = "none".to_string();
         } else if rng.chance(1, 2) {
             let mut v: serde_json::Value = serde_json::from_str(&text).ok()?;
-            fault = mutate_json_value(&mut rng, &mut v, 0);
+            fault = mutate_json_document(&mut rng, &mut v, &[]);
             text = serde_json::to_string(&v).ok()?;
         } else if rng.chance(1, 2) {
             let (t, d) = mutate_text_tokens(&mut rng, &text);
@@ -570,7 +736,8 @@ pub fn gen_case(seed: u64, index: u64) -> Option<Case> {
             let text = String::from_utf8_lossy(data).to_string();
             match serde_json::from_str::<serde_json::Value>(&text) {
                 Ok(mut v) => {
-                    let d = mutate_json_value(&mut rng, &mut v, 0);
+                    let includes: Vec<String> = names.iter().filter(|n| n.ends_with(".store.stam.json")).cloned().collect();
+                    let d = mutate_json_document(&mut rng, &mut v, &includes);
                     *data = serde_json::to_string_pretty(&v).ok()?.into_bytes();
                     fault = format!("json:{}:{}", target, d);
                 }
@@ -626,7 +793,7 @@ pub fn run_case(case: &Case) -> CaseOutcome {
             let text = String::from_utf8_lossy(&content).to_string();
             AnnotationStore::from_str(&text, Config::new()).map(Some).map_err(|e| format!("{}", e))
         }
-        Kind::JsonStoreInclude | Kind::CsvStore | Kind::Cbor => AnnotationStore::from_file(&case.main, Config::new()).map(Some).map_err(|e| format!("{}", e)),
+        Kind::JsonStoreInclude | Kind::JsonStoreSubstores | Kind::CsvStore | Kind::Cbor => AnnotationStore::from_file(&case.main, Config::new()).map(Some).map_err(|e| format!("{}", e)),
         Kind::JsonDataset => {
             let mut store = AnnotationStore::new(Config::new());
             store
@@ -751,14 +918,14 @@ pub fn worker(seed: u64, start: u64, end: u64, stride: u64) -> i32 {
 }
 
 fn fault_class(f: &str) -> String {
-    let first = f.split(|c| c == ':' || c == '@').next().unwrap_or("none");
-    if first == "json" || first == "text" || first == "bytes" {
-        // second-level class
-        let rest: Vec<&str> = f.split(':').collect();
-        let sub = rest.last().unwrap_or(&"").split('@').next().unwrap_or("");
+    // e.g. "json:/in/x.json:graft_subtree:..." -> "json.graft_subtree"; "bytes:/in/x:truncate@5" -> "bytes.truncate"
+    let parts: Vec<&str> = f.split(':').collect();
+    let first = parts.first().copied().unwrap_or("none");
+    if (first == "json" || first == "text" || first == "bytes") && parts.len() >= 3 {
+        let sub = parts[2].split('@').next().unwrap_or("");
         format!("{}.{}", first, sub)
     } else {
-        first.to_string()
+        first.split('@').next().unwrap_or("none").to_string()
     }
 }
 
@@ -776,7 +943,7 @@ struct Tally {
 pub fn check(tier: &str) -> i32 {
     let start = Instant::now();
     let seed = verif_seed();
-    let total: u64 = std::env::var("VERIF_RUNS").ok().and_then(|s| s.parse().ok()).unwrap_or(if tier == "thorough" { 4_000_000 } else { 120_000 });
+    let total: u64 = std::env::var("VERIF_RUNS").ok().and_then(|s| s.parse().ok()).unwrap_or(if tier == "thorough" { 6_000_000 } else { 300_000 });
     let nworkers = workers() as u64;
     println!("stamsim check property=C19 tier={} VERIF_SEED={} cases={} workers={}", tier, seed, total, nworkers);
     let exe = std::env::current_exe().expect("current exe");
@@ -974,7 +1141,12 @@ fn record_death(tally: &std::sync::Mutex<Tally>, seed: u64, idx: u64, class: &st
     t.cases += 1;
     // a process death caused by a huge temporary id is one listed finding; everything else keeps its own signature
     let cause = if is_large_tempid_fault(&fault) { "tempid_padding".to_string() } else { fault_class(&fault) };
-    let sig = format!("C19|{}|load:{}|{}", class, kind, cause);
+    let sig = if cause == "tempid_padding" {
+        // one listed finding whatever the container format
+        format!("C19|{}|load|tempid_padding", class)
+    } else {
+        format!("C19|{}|load:{}|{}", class, kind, cause)
+    };
     let detail = format!("worker process ended while loading case {} ({}); fault {}", idx, how, fault);
     let e = t.violations.entry(sig).or_insert((idx, 0, detail.clone()));
     e.1 += 1;
